@@ -180,6 +180,22 @@ def _sig_key(sg, contract):
     return f'resonance:{sg}'
 
 
+def _invalid_result_key(e, fname, inp):
+    """`ignore=False` makes standardize / canonicalize raise ImplementationError exactly when the result would carry invalid valences (library
+    docstring): that exception IS the `valid` contract failing.  It is attributed like the `valid` failure of the same call without the keyword:
+    when the independent signature predicate of what fix_resonance did on this input names a recorded root cause whose record describes `valid`,
+    that family; otherwise None (the exception keeps its own key)."""
+    if type(e).__name__ != 'ImplementationError' or 'ignore=False' not in fname or fname not in OPTION_BASE:
+        return None
+    try:
+        out = inp.copy()
+        FUNCS[OPTION_BASE[fname]][0](out)
+        sg = _signature(inp, out)
+    except Exception:
+        return None
+    return _sig_key(sg, 'valid') if sg and 'valid' in SIG_CONTRACTS.get(sg, ()) else None
+
+
 def _rule_fires_without_labels(f, m0):
     """the function rewrites the label-free molecule (a rule fires at all): part of the isotope family predicate"""
     c = m0.copy()
@@ -287,7 +303,7 @@ def _check_function(acc, fname, m0, src, r, renumber_ok=True, label=''):
             acc.v(_sig_key(sg, 'valid') if sg else f'valid@{fam("valid")}', f'{fname} raised {type(e).__name__}: {e} on valence-valid {src}',
                   {'smiles': src, 'function': fname, 'signature': sg}, f'{type(e).__name__}: {e}')
         elif valid:
-            acc.v(f'exc:{type(e).__name__}@{fam("exc")}', f'{fname} raised {type(e).__name__}: {e} at {_where(e)} on valence-valid {src}',
+            acc.v(_invalid_result_key(e, fname, m0) or f'exc:{type(e).__name__}@{fam("exc")}', f'{fname} raised {type(e).__name__}: {e} at {_where(e)} on valence-valid {src}',
                   {'smiles': src, 'function': fname, 'signature': sig}, f'{type(e).__name__}: {e}')
         else:
             acc.stat(f'exception-on-valence-invalid-input(not claimed):{type(e).__name__}@{fname}')
@@ -377,15 +393,24 @@ def _check_function(acc, fname, m0, src, r, renumber_ok=True, label=''):
                 f(p)
             except Exception as e:
                 if valid:
-                    acc.v(f'exc:{type(e).__name__}@{fam("exc")}', f'{fname} raised {type(e).__name__}: {e} at {_where(e)} on renumbered ({flavour}) {src}',
+                    acc.v(_invalid_result_key(e, fname, p0) or f'exc:{type(e).__name__}@{fam("exc")}', f'{fname} raised {type(e).__name__}: {e} at {_where(e)} on renumbered ({flavour}) {src}',
                           {'smiles': src, 'function': fname, 'permutation': _perm_of(mp), 'flavour': flavour}, f'{type(e).__name__}: {e}')
                 return a
             if MEASURE and uses_resonance and _resonance_choice(m0, p0, mp):
                 acc.member('resonance:choice-by-atom-number')
             if str(p) != s_a:
+                # "renumbering the input renumbers the output" is a statement about the two RESULTS being the same molecule; equal canonical
+                # strings are only a proxy for it.  When the strings differ the independent isomorphism oracle (constitution + configuration)
+                # decides; a pair it declares isomorphic is a canonical-STRING difference, i.e. C01's business (its documented gap), and is counted.
+                # The older proxy (does the result's own string change when the result is renumbered) is kept for pairs the oracle leaves
+                # undecided; its map is extended to atoms the operation added (explicit hydrogens), which the input's map does not cover.
+                same = _same_molecule(a, p)
                 a2 = a.copy()
-                a2.remap(mp)
-                if str(a2) != s_a:
+                top = max(list(a2._atoms) + list(mp.values()), default=0)
+                a2.remap({**{n: top + 1 + i for i, n in enumerate(x for x in a2._atoms if x not in mp)}, **{k: v for k, v in mp.items() if k in a2._atoms}})
+                if same is True:
+                    acc.stat('gap_hits:output-string-differs-but-results-are-isomorphic-incl-configuration(C01)')
+                elif str(a2) != s_a:
                     acc.stat('gap_hits:output-string-not-numbering-independent(C01)')
                 elif 'keep_kekule=True' in fname and _same_aromatic_form(a, p):
                     # which of several Kekule structures of one aromatic system is returned is not claimed ("return kekule form")
@@ -398,6 +423,17 @@ def _check_function(acc, fname, m0, src, r, renumber_ok=True, label=''):
                     acc.v(key('renumber', p, p0, p0), f'{fname} depends on numbering ({flavour}) for {src}: {s_a} vs {p} under {_perm_of(mp)[:120]}',
                           {'smiles': src, 'function': fname, 'permutation': _perm_of(mp), 'flavour': flavour}, str(p))
     return a
+
+
+def _same_molecule(a, b):
+    """independent verdict: True when the two results are isomorphic including configuration, False when they are not, None when undecided"""
+    try:
+        from oracles import o01_stereo as S
+        if format(a, '!s') != format(b, '!s'):       # different constitution strings: stereo-free canonical strings are outside C01's gaps
+            return False
+        return S.stereo_isomorphic(a, b, limit=20000)
+    except Exception:
+        return None
 
 
 def _tally(acc, n0):
@@ -657,7 +693,9 @@ def _check_tautomers(acc, m0, src, r, renumber_ok, options=()):
         except Exception as e:
             if not _library_exception(e):
                 raise
-            acc.v(_taut_exc_key(e, m0, call, stale), f'{call} raised {type(e).__name__}: {e} at {_where(e)} on {src}',
+            # the family predicate is asked under the keyword setting of THIS call as well: which tautomers exist depends on the keywords
+            stale_here = stale or (_has_stereo(m0) and I.stereo_touched_by_keto_enol(m0, opts=opts))
+            acc.v(_taut_exc_key(e, m0, call, stale_here), f'{call} raised {type(e).__name__}: {e} at {_where(e)} on {src}',
                   {'smiles': src, 'options': name}, f'{type(e).__name__}: {e}')
             continue
         if len(to) > 1:
